@@ -9,7 +9,11 @@
      acceptable name f      the documented shape (not a keyword; a func; documented kinds; (r[, error]))
      spec_values s args     every argument converted to its parameter's type, then zero values up to minIn
      conv v t               the Go value built for AWK value v and a parameter of type t
-     entry_ok / params_safe / results_safe        the guard that excludes the defects F-C17-2..5
+     go_typed f             what Go's typing/reflect guarantee about a map entry, nothing more
+   History: six full statements were false on the originally pinned tree (F-C17-1..6: non-function
+   and nil values, user-defined parameter types, user-defined byte-slice results, uint64 above
+   2^63); after the repairs they are the theorems C17_invalid_rejected, C17_valid_sig_no_panic,
+   C17_conv_uint and C17_never_panics below, with no guard.
    pf pp ff are the three primitives of other properties (parseFloat, parseFloatPrefix, CONVFMT form):
    every theorem holds for all of them. *)
 From Coq Require Import Permutation.
@@ -49,23 +53,25 @@ Theorem C17_keywords_table_agrees : keywords = Verif.Gen.Keywords.go_keywords.
 Proof. exact keywords_table_agrees. Qed.
 Print Assumptions C17_keywords_table_agrees.
 
-(* invalid_rejected.  Full statement: every value that is not of the documented shape gets an
-   error from checkNativeFunc. *)
-Definition C17_invalid_rejected_full : Prop :=
-  forall name f, wf_fval f -> acceptable name f = false ->
+(* invalid_rejected: every value that is not of the documented shape — nil and non-function
+   values included — gets an error from checkNativeFunc, never a panic *)
+Theorem C17_invalid_rejected : forall name f, wf_fval f -> acceptable name f = false ->
   exists e, check_native_func name f = NOk (Some e).
+Proof. exact invalid_rejected. Qed.
+Print Assumptions C17_invalid_rejected.
 
-(* false on the pinned tree: Funcs{"f": nil} panics in checkNativeFunc (F-C17-3) *)
-Theorem C17_invalid_rejected_refuted : ~ C17_invalid_rejected_full.
-Proof.
-  intros H. destruct (H [102] FNil I eq_refl) as [e He]. vm_compute in He. discriminate.
-Qed.
-Print Assumptions C17_invalid_rejected_refuted.
+(* the parse-time arity check never panics, whatever the map holds ... *)
+Theorem C17_resolve_call_no_panic : forall funcs awk name nargs,
+  exists r, resolve_call funcs awk name nargs = NOk r.
+Proof. exact resolve_call_no_panic. Qed.
+Print Assumptions C17_resolve_call_no_panic.
 
-Theorem C17_invalid_rejected_partial : forall name f, f <> FNil -> wf_fval f ->
-  acceptable name f = false -> exists e, check_native_func name f = NOk (Some e).
-Proof. exact invalid_rejected_partial. Qed.
-Print Assumptions C17_invalid_rejected_partial.
+(* ... and calling an entry that is not a function is a parse error *)
+Theorem C17_not_a_function_is_parse_error : forall funcs awk name nargs f,
+  mem_bytes name awk = false -> lookup name funcs = Some f -> (forall s b, f <> FFunc s b) ->
+  resolve_call funcs awk name nargs = NOk (Some PNotFunc).
+Proof. exact not_a_function_is_parse_error. Qed.
+Print Assumptions C17_not_a_function_is_parse_error.
 
 (* ================= 2. the call: arguments built, no "unexpected type" arm ================= *)
 
@@ -106,85 +112,54 @@ Theorem C17_to_native_panics_iff : forall pf pp ff v t,
 Proof. exact to_native_panics_iff. Qed.
 Print Assumptions C17_to_native_panics_iff.
 
-(* valid_sig_no_panic.  Full statement: an accepted function, called with a permitted argument
-   count, never makes callNative panic (the function body itself returning well-typed values). *)
-Definition C17_valid_sig_no_panic_full : Prop :=
-  forall pf pp ff tbl idx s body args,
-  nindex tbl idx = NOk (s, body) -> wf_sig s -> acceptable_sig s = true -> body_ok s body ->
-  (variadic s = true \/ zlen args <= zlen (params s)) ->
-  exists r, call_native pf pp ff tbl idx args = NOk r.
-
 Definition ex_pf : bytes -> option fnum := fun _ => None.
 Definition ex_pp : bytes -> fnum := fun _ => FFin 0 0.
 Definition ex_ff : fnum -> bytes := fun _ => [].
 
-(* false on the pinned tree: func(MyBool) is accepted, f(1) panics in reflect.Call (F-C17-4);
-   func() MyBytes is accepted, f() panics in fromNative (F-C17-5) *)
-Definition sig_mybool : sig := {| params := [TBool true]; variadic := false; results := [] |}.
-Definition sig_mybytes : sig := {| params := []; variadic := false; results := [TSlice (TUint W8 false) true] |}.
-
-Theorem C17_defined_param_panics :
-  acceptable_sig sig_mybool = true /\
-  call_native ex_pf ex_pp ex_ff [(sig_mybool, fun _ => [])] 0 [VNum (FFin 1 0)] = NPanic PkCallAssign.
-Proof. split; vm_compute; reflexivity. Qed.
-Print Assumptions C17_defined_param_panics.
-
-Theorem C17_defined_slice_result_panics :
-  acceptable_sig sig_mybytes = true /\
-  call_native ex_pf ex_pp ex_ff [(sig_mybytes, fun _ => [GV (TSlice (TUint W8 false) true) (DBytes [97])])] 0 [] = NPanic PkRetSlice.
-Proof. split; vm_compute; reflexivity. Qed.
-Print Assumptions C17_defined_slice_result_panics.
-
-Theorem C17_valid_sig_no_panic_refuted : ~ C17_valid_sig_no_panic_full.
-Proof.
-  intros H.
-  destruct (H ex_pf ex_pp ex_ff [(sig_mybool, fun _ => [])] 0 sig_mybool (fun _ => []) [VNum (FFin 1 0)]) as [r Hr].
-  - reflexivity.
-  - intros V. discriminate.
-  - reflexivity.
-  - intros vals. constructor.
-  - right. vm_compute. discriminate.
-  - vm_compute in Hr. discriminate.
-Qed.
-Print Assumptions C17_valid_sig_no_panic_refuted.
-
-(* with predeclared parameter types (a byte-slice parameter may be any slice type over uint8) and
-   no user-defined byte-slice result: no panic; the function receives spec_values; the outcome is
-   the converted result, or the function's own error *)
-Theorem C17_valid_sig_no_panic_partial : forall pf pp ff tbl idx s body args,
-  nindex tbl idx = NOk (s, body) -> wf_sig s -> acceptable_sig s = true ->
-  params_safe s = true -> results_safe s = true -> body_ok s body ->
+(* valid_sig_no_panic: an accepted function (user-defined types of the documented kinds included),
+   called with a permitted argument count, never makes callNative panic; it receives exactly
+   spec_values; the outcome is the converted result, or the function's own error *)
+Theorem C17_valid_sig_no_panic : forall pf pp ff tbl idx s body args,
+  nindex tbl idx = NOk (s, body) -> wf_sig s -> acceptable_sig s = true -> body_ok s body ->
   (variadic s = true \/ zlen args <= zlen (params s)) ->
   exists r, call_native pf pp ff tbl idx args = NOk r /\
             returns s (body (spec_values pf pp ff s args)) (spec_values pf pp ff s args) r.
-Proof. exact valid_sig_no_panic_partial. Qed.
-Print Assumptions C17_valid_sig_no_panic_partial.
+Proof. exact valid_sig_no_panic. Qed.
+Print Assumptions C17_valid_sig_no_panic.
 
-(* the guard is exact: a value built by toNative is assignable to the parameter iff param_safe *)
-Theorem C17_guard_is_exact : forall t, valid_native_type t = true ->
-  (assignable (plain_of t) t = true <-> param_safe t = true).
-Proof. exact assignable_plain_iff. Qed.
-Print Assumptions C17_guard_is_exact.
+(* the type table: for every type checkNativeFunc accepts, toNative followed by the conversion
+   to the parameter type yields a value of exactly that type (so reflect.Call takes it) ... *)
+Theorem C17_type_table_arguments : forall pf pp ff v t, valid_native_type t = true ->
+  (ndo v0 <- to_native pf pp ff v t; convert_arg v0 t) = NOk (conv pf pp ff v t) /\
+  gty (conv pf pp ff v t) = t.
+Proof. intros pf pp ff v t H. split; [exact (to_native_conv pf pp ff v t H)|exact (gty_conv pf pp ff v t H)]. Qed.
+Print Assumptions C17_type_table_arguments.
 
-(* ... and necessary: an accepted function whose first parameter is not param_safe panics in
-   reflect.Call on every call that passes an argument *)
-Theorem C17_unsafe_first_param_always_panics : forall pf pp ff tbl idx s body a rest,
-  nindex tbl idx = NOk (s, body) -> wf_sig s -> forallb valid_native_type (eff_params s) = true ->
-  (variadic s = true \/ zlen (a :: rest) <= zlen (params s)) ->
-  param_safe (param_ty s 0) = false ->
-  call_native pf pp ff tbl idx (a :: rest) = NPanic PkCallAssign.
-Proof. exact unsafe_first_param_always_panics. Qed.
-Print Assumptions C17_unsafe_first_param_always_panics.
+(* ... and fromNative takes every well-typed value of every accepted result type *)
+Theorem C17_type_table_results : forall o,
+  valid_native_type (gty o) = true -> data_fits (gty o) (gdat o) -> exists v, from_native o = NOk v.
+Proof. exact from_native_ok. Qed.
+Print Assumptions C17_type_table_results.
 
-Theorem C17_defined_slice_result_always_panics : forall e d dat,
-  ty_eqb (TSlice e d) byte_slice = false -> from_native (GV (TSlice e d) dat) = NPanic PkRetSlice.
-Proof. exact from_native_defined_slice_panics. Qed.
-Print Assumptions C17_defined_slice_result_always_panics.
+(* the former witnesses of F-C17-4 / F-C17-5 now run: func(MyBool) called with 1 receives true;
+   func() MyBytes returning "a" gives the string "a" *)
+Definition sig_mybool : sig := {| params := [TBool true]; variadic := false; results := [] |}.
+Definition sig_mybytes : sig := {| params := []; variadic := false; results := [TSlice (TUint W8 false) true] |}.
+
+Example C17_ex_defined_param :
+  call_native ex_pf ex_pp ex_ff [(sig_mybool, fun _ => [])] 0 [VNum (FFin 1 0)]
+  = NOk (CValue VNull [GV (TBool true) (DBool true)]).
+Proof. vm_compute. reflexivity. Qed.
+
+Example C17_ex_defined_slice_result :
+  call_native ex_pf ex_pp ex_ff [(sig_mybytes, fun _ => [GV (TSlice (TUint W8 false) true) (DBytes [97])])] 0 []
+  = NOk (CValue (VStr [97]) []).
+Proof. vm_compute. reflexivity. Qed.
 
 (* ================= 3. the conversion table ================= *)
 
 Theorem C17_conv_bool : forall pf pp ff v t, kind_of t = KBool ->
-  conv pf pp ff v t = GV (TBool false) (DBool (v_boolean pf v)).
+  conv pf pp ff v t = GV t (DBool (v_boolean pf v)).
 Proof. exact conv_bool. Qed.
 Print Assumptions C17_conv_bool.
 
@@ -199,41 +174,37 @@ Print Assumptions C17_truth_value.
 (* signed integer kinds: a number whose truncation fits the kind arrives truncated toward zero *)
 Theorem C17_conv_int : forall pf pp ff v t w m e,
   kind_of t = KInt w -> v_num pp v = FFin m e -> int_range w (ftrunc m e) ->
-  conv pf pp ff v t = GV (TInt w false) (DInt (ftrunc m e)).
+  conv pf pp ff v t = GV t (DInt (ftrunc m e)).
 Proof. exact conv_int. Qed.
 Print Assumptions C17_conv_int.
 
-(* unsigned kinds.  Full statement: the same for every number whose truncation fits the kind. *)
-Definition C17_conv_uint_full : Prop :=
-  forall w m e, uint_range w (ftrunc m e) -> to_uint w (FFin m e) = ftrunc m e.
-
-(* false on the pinned tree for uint64/uint in [2^63, 2^64): 1e19 arrives as 2^63 (F-C17-6) *)
-Theorem C17_conv_uint_refuted : ~ C17_conv_uint_full.
-Proof.
-  intros H. specialize (H W64 10000000000000000000 0).
-  assert (R : uint_range W64 (ftrunc 10000000000000000000 0)) by (vm_compute; split; [discriminate|reflexivity]).
-  specialize (H R). vm_compute in H. discriminate.
-Qed.
-Print Assumptions C17_conv_uint_refuted.
-
-Theorem C17_uint64_upper_half : forall m e, two63 <= ftrunc m e ->
-  to_uint W64 (FFin m e) = two63 /\ to_uint WP (FFin m e) = two63.
-Proof. exact to_uint64_upper_half. Qed.
-Print Assumptions C17_uint64_upper_half.
-
-Theorem C17_conv_uint_partial : forall pf pp ff v t w m e,
-  kind_of t = KUint w -> v_num pp v = FFin m e -> uint_range w (ftrunc m e) -> ftrunc m e < two63 ->
-  conv pf pp ff v t = GV (TUint w false) (DUint (ftrunc m e)).
+(* unsigned kinds: the same, for every number whose truncation fits the kind (uint64 up to 2^64-1) *)
+Theorem C17_conv_uint : forall pf pp ff v t w m e,
+  kind_of t = KUint w -> v_num pp v = FFin m e -> uint_range w (ftrunc m e) ->
+  conv pf pp ff v t = GV t (DUint (ftrunc m e)).
 Proof. exact conv_uint. Qed.
-Print Assumptions C17_conv_uint_partial.
+Print Assumptions C17_conv_uint.
+
+Theorem C17_to_uint_in_range : forall w m e, uint_range w (ftrunc m e) -> to_uint w (FFin m e) = ftrunc m e.
+Proof. exact to_uint_in_range. Qed.
+Print Assumptions C17_to_uint_in_range.
+
+(* what a uint64/uint parameter receives outside its range (as before the repair of F-C17-6):
+   negative numbers in the int64 range wrap modulo 2^64; below -2^63, from 2^64 on, NaN, +-Inf: 2^63 *)
+Theorem C17_uint64_out_of_range :
+  (forall m e, - two63 <= ftrunc m e < 0 -> to_uint64 (FFin m e) = ftrunc m e + two64) /\
+  (forall m e, ftrunc m e < - two63 \/ two64 <= ftrunc m e -> to_uint64 (FFin m e) = two63) /\
+  to_uint64 FNaN = two63 /\ (forall s, to_uint64 (FInf s) = two63).
+Proof. exact to_uint64_out_of_range. Qed.
+Print Assumptions C17_uint64_out_of_range.
 
 Theorem C17_conv_float64 : forall pf pp ff v t, kind_of t = KFloat64 ->
-  conv pf pp ff v t = GV (TFloat64 false) (DFloat (v_num pp v)).
+  conv pf pp ff v t = GV t (DFloat (v_num pp v)).
 Proof. exact conv_f64. Qed.
 Print Assumptions C17_conv_float64.
 
 Theorem C17_conv_float32 : forall pf pp ff v t, kind_of t = KFloat32 ->
-  conv pf pp ff v t = GV (TFloat32 false) (DFloat (to_f32 (v_num pp v))).
+  conv pf pp ff v t = GV t (DFloat (to_f32 (v_num pp v))).
 Proof. exact conv_f32. Qed.
 Print Assumptions C17_conv_float32.
 
@@ -253,12 +224,12 @@ Proof. exact fround_step_nearest. Qed.
 Print Assumptions C17_rounding_step_nearest_even.
 
 Theorem C17_conv_string : forall pf pp ff v t, kind_of t = KString ->
-  conv pf pp ff v t = GV (TString false) (DStr (v_str ff v)).
+  conv pf pp ff v t = GV t (DStr (v_str ff v)).
 Proof. exact conv_string. Qed.
 Print Assumptions C17_conv_string.
 
 Theorem C17_conv_bytes : forall pf pp ff v t, kind_of t = KSlice ->
-  conv pf pp ff v t = GV byte_slice (DBytes (v_str ff v)).
+  conv pf pp ff v t = GV t (DBytes (v_str ff v)).
 Proof. exact conv_bytes. Qed.
 Print Assumptions C17_conv_bytes.
 
@@ -294,8 +265,8 @@ Theorem C17_result_table :
   (forall d x, from_native (GV (TFloat32 d) (DFloat x)) = NOk (VNum x)) /\
   (forall d x, from_native (GV (TFloat64 d) (DFloat x)) = NOk (VNum x)) /\
   (forall d s, from_native (GV (TString d) (DStr s)) = NOk (VStr s)) /\
-  (forall s, from_native (GV byte_slice (DBytes s)) = NOk (VStr s)) /\
-  from_native (GV byte_slice DNilSlice) = NOk (VStr []).
+  (forall e d s, kind_of e = KUint W8 -> from_native (GV (TSlice e d) (DBytes s)) = NOk (VStr s)) /\
+  (forall e d, kind_of e = KUint W8 -> from_native (GV (TSlice e d) DNilSlice) = NOk (VStr [])).
 Proof. exact from_native_table. Qed.
 Print Assumptions C17_result_table.
 
@@ -345,53 +316,37 @@ Print Assumptions C17_indexes_agree.
 
 (* ================= 5. the whole run ================= *)
 
-(* "never a panic".  Full statement: for every map whose entries are what Go's typing allows. *)
-Definition C17_never_panics_full : Prop :=
-  forall pf pp ff funcs_r funcs_i awk name args,
+(* "never a panic": for every map whose entries are what Go's typing allows — nil values,
+   non-functions and functions of any shape — both iteration orders, every called name
+   (AWK-defined or not), every argument list *)
+Theorem C17_never_panics : forall pf pp ff funcs_r funcs_i awk name args,
   NoDup (map fst funcs_i) -> Permutation funcs_r funcs_i ->
   (forall n f, In (n, f) funcs_i -> go_typed f) ->
   forall k, run pf pp ff funcs_r funcs_i awk name args <> OPanic k.
+Proof. exact run_no_panic. Qed.
+Print Assumptions C17_never_panics.
 
-(* F-C17-1: Funcs{"f": 42} and a program calling f(): the parser panics *)
-Theorem C17_non_func_called_panics :
-  run ex_pf ex_pp ex_ff [([102], FNonFunc)] [([102], FNonFunc)] [] [102] [] = OPanic PkNonFunc.
-Proof. vm_compute. reflexivity. Qed.
-Print Assumptions C17_non_func_called_panics.
-
-(* F-C17-2: Funcs{"f": nil} called: the parser panics; F-C17-3: not called: set-up panics *)
-Theorem C17_nil_value_panics :
-  run ex_pf ex_pp ex_ff [([102], FNil)] [([102], FNil)] [] [102] [] = OPanic PkNilType /\
-  init_native_funcs [([103], FFunc {| params := []; variadic := false; results := [] |} (fun _ => [])); ([102], FNil)]
-    = NPanic PkNilType.
+(* the former witnesses: Funcs{"f": 42} / Funcs{"f": nil} called -> parse error; nil not called -> set-up error *)
+Example C17_ex_non_func_called :
+  run ex_pf ex_pp ex_ff [([102], FNonFunc)] [([102], FNonFunc)] [] [102] [] = OParseError PNotFunc /\
+  run ex_pf ex_pp ex_ff [([102], FNil)] [([102], FNil)] [] [102] [] = OParseError PNotFunc.
 Proof. split; vm_compute; reflexivity. Qed.
-Print Assumptions C17_nil_value_panics.
 
-Theorem C17_never_panics_refuted : ~ C17_never_panics_full.
-Proof.
-  intros H.
-  apply (H ex_pf ex_pp ex_ff [([102], FNonFunc)] [([102], FNonFunc)] [] [102] [] ) with (k := PkNonFunc).
-  - constructor; [intros []|constructor].
-  - apply Permutation_refl.
-  - intros n f [[= <- <-]|[]]. exact I.
-  - vm_compute. reflexivity.
-Qed.
-Print Assumptions C17_never_panics_refuted.
+Example C17_ex_nil_not_called :
+  init_native_funcs [([103], FFunc {| params := []; variadic := false; results := [] |} (fun _ => [])); ([102], FNil)]
+    = NOk (inl ([102], ENotFunc)).
+Proof. vm_compute. reflexivity. Qed.
 
-(* with the guard: no nil value in the map, the called name not bound to a non-function, accepted
-   functions have predeclared parameter types and no user-defined byte-slice result — for every map,
-   both iteration orders, every program-side name (AWK-defined or not), every argument list *)
-Theorem C17_run_no_panic_partial : forall pf pp ff funcs_r funcs_i awk name args,
-  NoDup (map fst funcs_i) -> Permutation funcs_r funcs_i ->
-  (forall n f, In (n, f) funcs_i -> entry_ok f) ->
-  lookup name funcs_r <> Some FNonFunc ->
-  forall k, run pf pp ff funcs_r funcs_i awk name args <> OPanic k.
-Proof. exact run_no_panic_partial. Qed.
-Print Assumptions C17_run_no_panic_partial.
+Theorem C17_run_not_a_function : forall pf pp ff funcs_r funcs_i awk name args f,
+  mem_bytes name awk = false -> lookup name funcs_r = Some f -> (forall s b, f <> FFunc s b) ->
+  run pf pp ff funcs_r funcs_i awk name args = OParseError PNotFunc.
+Proof. exact run_not_a_function. Qed.
+Print Assumptions C17_run_not_a_function.
 
 (* the call reaches the function of that name with spec_values, result/error as it returns them *)
 Theorem C17_run_calls_named_function : forall pf pp ff funcs_r funcs_i awk name args s b,
   NoDup (map fst funcs_i) -> Permutation funcs_r funcs_i ->
-  (forall n f, In (n, f) funcs_i -> entry_ok f) ->
+  (forall n f, In (n, f) funcs_i -> go_typed f) ->
   (forall n f, In (n, f) funcs_i -> acceptable n f = true) ->
   mem_bytes name awk = false -> lookup name funcs_r = Some (FFunc s b) ->
   (variadic s = true /\ zlen args <= 1000000000 \/ variadic s = false /\ zlen args <= zlen (params s)) ->
@@ -404,7 +359,7 @@ Print Assumptions C17_run_calls_named_function.
 (* a non-nil error aborts the run with exactly that error (its identity, not a copy) *)
 Theorem C17_run_error_identity : forall pf pp ff funcs_r funcs_i awk name args s b o e id,
   NoDup (map fst funcs_i) -> Permutation funcs_r funcs_i ->
-  (forall n f, In (n, f) funcs_i -> entry_ok f) ->
+  (forall n f, In (n, f) funcs_i -> go_typed f) ->
   (forall n f, In (n, f) funcs_i -> acceptable n f = true) ->
   mem_bytes name awk = false -> lookup name funcs_r = Some (FFunc s b) ->
   (variadic s = true /\ zlen args <= 1000000000 \/ variadic s = false /\ zlen args <= zlen (params s)) ->
@@ -415,7 +370,7 @@ Print Assumptions C17_run_error_identity.
 
 Theorem C17_run_value : forall pf pp ff funcs_r funcs_i awk name args s b,
   NoDup (map fst funcs_i) -> Permutation funcs_r funcs_i ->
-  (forall n f, In (n, f) funcs_i -> entry_ok f) ->
+  (forall n f, In (n, f) funcs_i -> go_typed f) ->
   (forall n f, In (n, f) funcs_i -> acceptable n f = true) ->
   mem_bytes name awk = false -> lookup name funcs_r = Some (FFunc s b) ->
   (variadic s = true /\ zlen args <= 1000000000 \/ variadic s = false /\ zlen args <= zlen (params s)) ->
@@ -428,11 +383,10 @@ Theorem C17_run_value : forall pf pp ff funcs_r funcs_i awk name args s b,
 Proof. exact run_value. Qed.
 Print Assumptions C17_run_value.
 
-(* any entry of another shape (or keyword-named): the run ends in a parse error or in a set-up
-   error naming an entry of another shape — before any AWK code runs *)
+(* any entry of another shape (nil and non-functions included) or keyword-named: the run ends in a
+   parse error or in a set-up error naming an entry of another shape — before any AWK code runs *)
 Theorem C17_run_rejects_other_shapes : forall pf pp ff funcs_r funcs_i awk name args n0 f0,
-  (forall n f, In (n, f) funcs_i -> entry_ok f) -> lookup name funcs_r <> Some FNonFunc ->
-  (forall f, lookup name funcs_r = Some f -> f <> FNil) ->
+  (forall n f, In (n, f) funcs_i -> go_typed f) ->
   In (n0, f0) funcs_i -> acceptable n0 f0 = false ->
   (exists pe, run pf pp ff funcs_r funcs_i awk name args = OParseError pe) \/
   (exists n e f, run pf pp ff funcs_r funcs_i awk name args = OSetupError n e /\ In (n, f) funcs_i /\ acceptable n f = false).
@@ -485,28 +439,35 @@ Proof. vm_compute. reflexivity. Qed.
 (* the hypotheses of the run theorems hold for this map *)
 Example C17_ex_hyps :
   NoDup (map fst (rev (ex_funcs DErrNil))) /\ Permutation (ex_funcs DErrNil) (rev (ex_funcs DErrNil)) /\
-  (forall n f, In (n, f) (rev (ex_funcs DErrNil)) -> entry_ok f /\ acceptable n f = true).
+  (forall n f, In (n, f) (rev (ex_funcs DErrNil)) -> go_typed f /\ acceptable n f = true).
 Proof.
   split; [|split].
   - cbn. repeat constructor; cbn; intros H; repeat destruct H as [H|H]; try discriminate; exact H.
   - apply Permutation_rev.
   - intros n f Hin. cbn in Hin.
-    destruct Hin as [[= <- <-]|[[= <- <-]|[[= <- <-]|[]]]]; (split; [|vm_compute; reflexivity]); cbn [entry_ok].
-    + split; [intros V; discriminate|]. split; [intros vals; constructor|]. intros _. split; vm_compute; reflexivity.
-    + split; [intros V; discriminate|]. split.
-      * intros vals. constructor; [|constructor]. split; [reflexivity|]. right. eexists; reflexivity.
-      * intros _. split; vm_compute; reflexivity.
-    + split; [intros _; exists [TInt W8 false; TString false], (TUint W16 false), false; reflexivity|]. split.
-      * intros vals. constructor; [split; [reflexivity|eexists; reflexivity]|].
-        constructor; [split; [reflexivity|left; reflexivity]|constructor].
-      * intros _. split; vm_compute; reflexivity.
+    destruct Hin as [[= <- <-]|[[= <- <-]|[[= <- <-]|[]]]]; (split; [|vm_compute; reflexivity]); cbn [go_typed].
+    + split; [intros V; discriminate|intros vals; constructor].
+    + split; [intros V; discriminate|].
+      intros vals. constructor; [|constructor]. split; [reflexivity|]. right. eexists; reflexivity.
+    + split; [intros _; exists [TInt W8 false; TString false], (TUint W16 false), false; reflexivity|].
+      intros vals. constructor; [split; [reflexivity|eexists; reflexivity]|].
+      constructor; [split; [reflexivity|left; reflexivity]|constructor].
 Qed.
 
 (* in-range truncation, concrete: -3.99 -> int16 -3 ; 255.5 -> uint8 255 *)
 Example C17_ex_trunc :
   conv ex_pf ex_pp ex_ff (VNum (of_bits 13839539136911397356)) (TInt W16 false) = GV (TInt W16 false) (DInt (-3)) /\
-  conv ex_pf ex_pp ex_ff (VNum (FFin 511 (-1))) (TUint W8 true) = GV (TUint W8 false) (DUint 255).
+  conv ex_pf ex_pp ex_ff (VNum (FFin 511 (-1))) (TUint W8 true) = GV (TUint W8 true) (DUint 255).
 Proof. split; vm_compute; reflexivity. Qed.
+
+(* the former witness of F-C17-6: a uint64 parameter receives 1e19 as 10000000000000000000;
+   the values outside the range are as they were: -1 -> 2^64-1, 1e30 and 2^64 -> 2^63 *)
+Example C17_ex_uint64 :
+  to_uint W64 (FFin 10000000000000000000 0) = 10000000000000000000 /\
+  to_uint WP (FFin 18446744073709549568 0) = 18446744073709549568 /\
+  to_uint W64 (FFin (-1) 0) = 18446744073709551615 /\
+  to_uint W64 (FFin 1 100) = 9223372036854775808 /\ to_uint W64 (FFin 1 64) = 9223372036854775808.
+Proof. repeat split; vm_compute; reflexivity. Qed.
 
 (* float32 rounding, concrete: 2^24+1 (tie) -> 2^24 ; 2^24+3 -> 2^24+4 ; 3.4028235677973366e38 -> +inf *)
 Example C17_ex_float32 :
